@@ -53,6 +53,9 @@ def make_array(case):
     elif lay == 'readonly':
         a = a.copy()
         a.setflags(write=False)
+    elif lay == 'bigendian':
+        # non-native byte order, as astropy.io.fits delivers image data
+        a = a.astype(a.dtype.newbyteorder('>'))
     return a
 
 
